@@ -1,5 +1,6 @@
 import ModVerif.Drv.MainLoop
 import ModVerif.Drv.Module
+import ModVerif.Drv.GenModule
 open ModVerif.Drv
 
-def main : IO Unit := runMain [("module", Module.handle)]
+def main : IO Unit := runMain [("module", Module.handle), ("gmodule", GenModule.handle)]
